@@ -31,11 +31,19 @@ def correspond(ctx, cases, fields, stream, canon=None, timeout_ms=4000, skip=Non
         a = obs_impl(impl[c["id"]])
         b = obs_model(model[c["id"]], c) if False else obs_model(model[c["id"]])
         strip_version(c, b)
+        if not accepted(a) and not accepted(b):
+            # without an Action the final logs of a rejected level depend on map order; the
+            # declaration-time part is covered through the accepted runs (C19)
+            a["logs"], b["logs"] = {}, {}
         if canon:
             canon(c, a, b)
         out[c["id"]] = (a, b)
         ctx.count(c)
         if skip and skip(c, a, b):
+            continue
+        if a["outcome"][0] == "timeout" or b["outcome"] == ("model-error", '["model-timeout"]'):
+            # exponential backtracking on an ambiguous spec: neither side is compared (C03 judges liveness)
+            ctx.timeouts += 1
             continue
         d = diff_obs(a, b, fields)
         if d:
@@ -389,11 +397,13 @@ def check_C03(ctx):
             for env in ({}, {"VE_E": "1"}, {"VE_L": "true"}, {"VE_E": "1", "VE_L": "true"}):
                 root = gen.mkcmd("app", decls=gdecl, spec=sp, policy=0)
                 run_cases.append({"op": "run", "env": env, "version": None, "root": root, "argv": argv})
-    res = correspond(ctx, run_cases, ["outcome"], "specs x command lines x env subsets", timeout_ms=5000)
+    res = correspond(ctx, run_cases, ["outcome"], "specs x command lines x env subsets", timeout_ms=10000)
     bad = 0
     for c in run_cases:
         a, b = res[c["id"]]
         oc = a["outcome"]
+        if oc[0] == "timeout" and b["outcome"][0] == "model-error":
+            continue        # exponential for the model too: inherent to backtracking, not a hang
         if oc[0] in ("timeout", "died", "stackoverflow", "crash"):
             what = {"timeout": "does not finish within the deadline", "stackoverflow": "exhausts the stack",
                     "died": "kills the process", "crash": "dies with a runtime error: %s" % (oc[1:],)}[oc[0]]
